@@ -74,17 +74,12 @@ func Round(x float64, prec jtypes.OptionalInt) float64 {
 		} else {
 			x = math.Ceil(intermed)
 		}
-	} else if intermed == math.Trunc(intermed) {
-		// Already an integer. (Adding 0.5 is not exact above
-		// 2^52 and would round an odd integer up to the next
-		// even one.)
-		x = intermed
 	} else {
-		if x < 0 {
-			x = math.Ceil(intermed - 0.5)
-		} else {
-			x = math.Floor(intermed + 0.5)
-		}
+		// Not a tie: round to the nearest integer. math.Round
+		// is exact. (Adding 0.5 and truncating is not: the sum
+		// is rounded, which turned 0.49999999999999994 into 1
+		// and an odd integer above 2^52 into the next even one.)
+		x = math.Round(intermed)
 	}
 
 	if x == 0 {
